@@ -166,11 +166,18 @@ func (m *Muxer) SetPCRPID(pid uint16) {
 
 // WriteData writes MuxerData to TS stream
 // Currently only PES packets are supported
-// Be aware that after successful call WriteData will set d.AdaptationField.StuffingLength value to zero
+// Be aware that WriteData uses d.AdaptationField.StuffingLength while it packetises the data and sets it back to zero
+// before it returns, whether the call succeeds or not
 func (m *Muxer) WriteData(d *MuxerData) (int, error) {
 	ctx, ok := m.esContexts[uint32(d.PID)]
 	if !ok {
 		return 0, ErrPIDNotFound
+	}
+
+	// The stuffing recorded in the caller's adaptation field only serves this call: a value left behind by a failed
+	// call would be taken for stuffing requested by the caller the next time the adaptation field is used
+	if d.AdaptationField != nil {
+		defer func() { d.AdaptationField.StuffingLength = 0 }()
 	}
 
 	bytesWritten := 0
@@ -281,10 +288,6 @@ func (m *Muxer) WriteData(d *MuxerData) (int, error) {
 
 			payloadStart = false
 		}
-	}
-
-	if d.AdaptationField != nil {
-		d.AdaptationField.StuffingLength = 0
 	}
 
 	return bytesWritten, nil
